@@ -129,6 +129,16 @@ impl Mon {
         }
         let hv = h.health();
         self.r.min("C04.min_accepted_health_usd", to_f64(&hv.v));
+        if hv.certainly_neg() && self.r.is("C09") {
+            // attribute to the bias clause of C09 when the acceptance is explainable only by
+            // valuing collateral above / debt below the conservative price
+            refm::REF_NO_BIAS.store(true, std::sync::atomic::Ordering::Relaxed);
+            let hu = refm::ref_health(&pos, Req::Initial, info.now);
+            refm::REF_NO_BIAS.store(false, std::sync::atomic::Ordering::Relaxed);
+            if hu.must_error.is_none() && !hu.health().certainly_neg() {
+                self.r.violate("C09", &format!("C09/{}/accepted-only-without-conservative-price-bias", info.kind.name()), format!("account {}: reference initial health {} (+-{}) with collateral at the low and debt at the high biased price, {} at the reported prices", ak, show(&hv.v), show(&hv.e), show(&hu.health().v)));
+            }
+        }
         if hv.certainly_neg() {
             self.r.violate("C04", &format!("C04/{}/accepted-with-negative-initial-health", info.kind.name()), format!("account {}: reference initial health {} (+-{}) assets {} liabs {}", ak, show(&hv.v), show(&hv.e), show(&h.assets.v), show(&h.liabs.v)));
         }
